@@ -508,13 +508,19 @@ def check(run):
         "lenient spellings, near-misses) through format_datetime, parse_into_datetime, TimestampProperty.clean+encoder and "
         "real object properties, at every precision/constraint; a case is non-trivial when the implementation wrote a timestamp "
         "(was not rejected)")
+    import time
+    t0 = time.time()
+    phases = run.coverage.setdefault("phase_s", {})
     with common.Lock():
+        phases["lock_wait"] = round(time.time() - t0, 1)
         res = common.build_props("Props/C15.v")
         run.add_build(res, "make -C coq Props/C15.vo (coqc 8.16.1, full .vo) + Print Assumptions per theorem")
+    phases["build"] = round(time.time() - t0, 1)
     ym, nm = select_variant(run)
     run.coverage["variant_selected"] = {"year_mode": ym, "naive_mode": nm}
     cases = gen_cases(run, scale)
     impl = common.run_impl("c15_impl", cases)
+    phases["impl"] = round(time.time() - t0, 1)
     hist = {}
     for c, r in zip(cases, impl):
         o, _ = split_result(r)
@@ -538,6 +544,7 @@ def check(run):
                                      {"first": [{"case": c, "impl": i, "model": m} for c, i, m in dis[:8]]}))
     except RuntimeError as e:
         run.broken.append(Broken("correspondence", "model evaluation failed", {"error": str(e)[-1500:]}))
+    phases["model"] = round(time.time() - t0, 1)
     # the property itself on the implementation: the variant witness first (so that it is the replay when the
     # unpadded variant is back), then the deterministic boundary grid and every generated case
     stats = {}
